@@ -339,6 +339,42 @@ PROPS.update({
     ),
 })
 
+PROPS.update({
+    'C14': dict(
+        level='proof',
+        level_text='Rocq theorems about faithful models of TokenIter, TokenBuffer::add (gap tokens), TokenStream and the parsers\' handling of '
+                   'additional tokens: all tokens ever delivered are contiguous from 0 to the text length and their texts concatenate to '
+                   'the input (C14_all_tokens_contiguous, C14_tokens_cover_text, C14_buffer_contiguous for every schedule), the LR tree '
+                   'leaves are exactly the delivered tokens (C14_lr_leaves_all_tokens). Tie to the code: both real parsers on decorated '
+                   'sentences (whitespace, CR/LF mixes, comments, unmatched gaps incl. multi-byte, %skip-listed tokens); the leaves of '
+                   'the real tree must equal the model\'s all_tokens of the real scanner matches and pass the proved tokens_check.',
+        level_note='Trusted: Coq kernel, extraction, OCaml driver, harness (allow-unmatched alphabet scanner built with scnr2::scanner!). '
+                   'Line/column numbers come from scnr2 and are not modelled. Finding D20 (MAX_K = 0: no end-of-text EOI from the iterator, '
+                   'so a trailing unmatched stretch is not turned into a gap token) is recorded as C14_buffer_contiguous_k0_refuted.',
+        technique='Rocq proof (contiguity invariant of the token buffer, for all schedules) + differential run of both real parsers',
+        streams=[dict(cmd='c14', quick=240, thorough=12000)],
+        rule='LL and LR grammars as in C01/C03; sentences (1/4 mutated) rendered with random separators: blanks, LF, CRLF, CR, tabs, line and '
+             'block comments, unmatched "#", "9", "é", skip-listed "z"; non-trivial = accepted text with at least one skipped token; '
+             'distinct = distinct case text',
+        explanation='tokens_check_spec / all_tokens_contiguous.',
+    ),
+    'C17': dict(
+        level='proof',
+        level_text='Rocq theorems on the same token-stream model: the parser input is a function of the significant tokens only, for the LL '
+                   'parser with arbitrary per-state skip lists (C17_skip_irrelevant_ll) and for the LR parser with the repaired call_action '
+                   '(C17_lr_skip_listed_ok; the pinned predicate is refuted by C17_lr_skip_listed_refuted: S: a b, skip [c], input a c b '
+                   'hands (c, b) to the action); every comment reaches on_comment exactly once in input order '
+                   '(C17_comments_once_in_order). Tie to the code: metamorphic run of both real parsers: verdict and semantic actions '
+                   '(production numbers with the token types of their children) of a decorated text vs the bare text, and the comment '
+                   'callback trace vs the model.',
+        level_note='Trusted as C14. Scanner switching is not exercised by the alphabet scanner (single mode with a %skip list).',
+        technique='Rocq proof (observational equivalence of runs with the same significant tokens) + metamorphic differential run',
+        streams=[dict(cmd='c14', quick=240, thorough=12000)],
+        rule='as C14; non-trivial = accepted text with >= 2 skipped tokens; distinct = distinct case text',
+        explanation='D9 repaired by a fix: commit.',
+    ),
+})
+
 import lschecks
 
 PROPS.update({
